@@ -1127,6 +1127,9 @@ class Timezone(Component):
 
             rrulestr = component['RRULE'].to_ical().decode('utf-8')
             rrule = dateutil.rrule.rrulestr(rrulestr, dtstart=rrstart)
+            if rrule._interval < 1:
+                # dateutil never gets past the first onset with INTERVAL=0
+                raise ValueError("INTERVAL must be a positive integer.")
             tzp.fix_rrule_until(rrule, component['RRULE'])
 
             # constructing the timezone requires UTC transition times.
